@@ -153,13 +153,16 @@ prop("C11", level="other", runtime=True,
      explanation="Partial. The crash conditions that the code controls are proved: (1) Job.evaluate hands a design to the store only "
                  "after its evaluation is complete (state EVALUATED, costs and signed costs set: precondition of the store "
                  "interface, discharged at the call site on every path); (2) SqliteDataStore.sync_individual returns only after the "
-                 "upsert of that design's current document has been committed, with nothing pending on the connection. Together with "
+                 "upsert of that design's current document has been committed, with nothing pending on the connection; (3) in the default "
+                 "thread-safe mode the connection is fresh and the rollback journal is never switched off. Together with "
                  "SQLite's atomic, journalled commit (assumed, external) every synchronised design is durable and no row is partial. "
                  "The remaining part of the statement (process death at every moment, file readable afterwards) is a bounded crash "
                  "exploration: the writer of a small serial NSGA-II run is killed with os._exit at every objective call and before / "
                  "after every execute and commit, and the file is reopened by a fresh read-mode view.",
      assumptions=["SQLite commit atomicity and roll-back of uncommitted statements (external)",
-                  "the PRAGMA set-up in conn() is not under contract (external calls): covered only by the crash exploration"],
+                  "SqliteDataStore.conn is under contract (default thread-safe mode: a fresh connection on which `PRAGMA journal_mode = OFF` "
+                  "was never executed); sqlite3.connect, cursor(), execute() and commit() themselves are abstract (external); "
+                  "sqlite3.connect is assumed not to raise"],
      not_decided=["parallel evaluation (C07)", "death at arbitrary wall-clock instants between the enumerated events: bounded exploration only"])
 prop("C13", level="exploration", runtime=True,
      explanation="BOUNDED, nothing proved: the designs are built by numpy code (fullfact, pbdesign with Toeplitz / Hankel / Kronecker "
